@@ -12,7 +12,7 @@
    refinement (`_chiral_morgan`) is not covered by theorems: search in harness/checks/C01.py. *)
 From Coq Require Import ZArith List Bool Permutation Sorting.Sorted String.
 From Model Require Import PyBase PyHash Graph Morgan Writer.
-From Proofs Require Import MorganProofs WriterInvProofs WriterStereoExt BfsExt TraverseOrderExt.
+From Proofs Require Import MorganProofs WriterInvProofs WriterStereoExt BfsExt TraverseOrderExt InsertionOrderExt.
 Import ListNotations.
 Open Scope Z_scope.
 
@@ -513,3 +513,43 @@ Theorem C01_first_component_example :
     Ok [TAtom 9; TBond 9 8; TAtom 8; TOpen; TBond 8 7; TAtom 7; TClose; TBond 8 6; TAtom 6].
 Proof. exact first_component_example. Qed.
 Print Assumptions C01_first_component_example.
+
+(* ---- the stereo-free string under ANY renumbering and ANY insertion order, molecules written as one component ---- *)
+(* calc_labels: hybridization is a function of the multiset of bond orders *)
+Theorem C01_hybridization_order_independent : forall (l l' : list (Z * bond)), Permutation l l' -> forall h : Z,
+  fold_left (fun h mb => hyb_step h (b_ord (snd mb))) l h = fold_left (fun h mb => hyb_step h (b_ord (snd mb))) l' h.
+Proof. exact fold_hyb_perm. Qed.
+Print Assumptions C01_hybridization_order_independent.
+
+(* DESIGN appendix A smiles_invariant_discrete for format(mol, '!s') and every option set without stereo marks / atom-map
+   numbers: g' is g renumbered by s AND re-inserted in any order; injective weights; any tie-break priorities; any registries.
+   _partial: the molecule must be written as one component ([single_component]: after the first component no atom is left),
+   because the BFS theorem covers a BFS started on an empty `seen`; stereo marks under re-insertion need the parity lemmas *)
+Theorem C01_smiles_invariant_discrete_nostereo_insertion_order_partial :
+  forall (g g' : mol) (s w w' tb tb' : Z -> Z) (o : opts) (tabs tabs' : stabs),
+  wf_mol g = true -> wf_mol g' = true -> (forall x y, s x = s y -> x = y) -> mol_perm (ren_mol s g) g' ->
+  inj_on (ids g) w -> (forall n, In n (ids g) -> w' (s n) = w n) -> o_stereo o = false -> o_mapping o = false ->
+  single_component g w tb o tabs ->
+  smiles_text g' w' tb' o tabs' = map_order s (smiles_text g w tb o tabs).
+Proof. exact smiles_text_single_component_perm. Qed.
+Print Assumptions C01_smiles_invariant_discrete_nostereo_insertion_order_partial.
+
+(* end to end with the Morgan model, every hash function: discrete classes of atoms_order *)
+Theorem C01_canonical_nostereo_string_structure_only :
+  forall (h : list Z -> Z) (ring ring' : Z -> bool) (g g' : mol) (s tb tb' : Z -> Z) (o : opts) (tabs tabs' : stabs) (l : labels),
+  wf_mol g = true -> wf_mol g' = true -> (forall x y, s x = s y -> x = y) -> (forall n, In n (ids g) -> ring' (s n) = ring n) ->
+  mol_perm (ren_mol s g) g' -> atoms_order h ring g = Ok l -> NoDup (map snd l) -> o_stereo o = false -> o_mapping o = false ->
+  single_component g (lbl l) tb o tabs ->
+  exists l', atoms_order h ring' g' = Ok l' /\
+             smiles_text g' (lbl l') tb' o tabs' = map_order s (smiles_text g (lbl l) tb o tabs).
+Proof. exact canonical_nostereo_string_structure_only. Qed.
+Print Assumptions C01_canonical_nostereo_string_structure_only.
+
+Theorem C01_insertion_order_example :
+  wf_mol exb_g1 = true /\ wf_mol ext_g' = true /\ (forall x y, ext_s x = ext_s y -> x = y) /\ mol_perm (ren_mol ext_s exb_g1) ext_g' /\
+  inj_on (ids exb_g1) ext_w /\ (forall n, In n (ids exb_g1) -> ext_w' (ext_s n) = ext_w n) /\
+  o_stereo exw_o = false /\ o_mapping exw_o = false /\ single_component exb_g1 ext_w (fun n => n) exw_o no_stabs /\
+  smiles_text exb_g1 ext_w (fun n => n) exw_o no_stabs = Ok ("CC(C)O"%string, [1; 2; 3; 4]) /\
+  smiles_text ext_g' ext_w' (fun n => n) exw_o no_stabs = Ok ("CC(C)O"%string, [9; 8; 7; 6]).
+Proof. exact insertion_order_example. Qed.
+Print Assumptions C01_insertion_order_example.
